@@ -334,7 +334,7 @@ fn key_of(hist: &[Op], err: &str) -> String {
 
 pub fn run(tier: &str) -> Run {
     let mut run = Run::new("C13", tier);
-    let n = if tier == "thorough" { 6 } else { 4 };
+    let n = if tier == "thorough" { 7 } else { 4 };
     let alphabet = names(n);
     let init = St { list: ItemList::new(), model: vec![], next_id: 0 };
     let al = alphabet.clone();
@@ -387,7 +387,7 @@ pub fn run(tier: &str) -> Run {
         run.machinery(format!("reached {} canonical states, expected all {} ordered subsets", stats.states, exp2));
     }
     // second, non-deduplicated exploration to a short depth: same verdicts, all states inside the bfs set
-    let depth = if tier == "thorough" { 3 } else { 3 };
+    let depth = if tier == "thorough" { 4 } else { 3 };
     let set: std::collections::HashSet<String> = order.iter().cloned().collect();
     let mut dfs_paths = 0u64;
     let mut dfs_viol = 0u64;
